@@ -185,7 +185,21 @@ def gen_case(rng, tier):
         fss.append(gen_fs(rng, d, lmin, lmax, a, b, boundary))       # vector-valued function (output_length 2)
     # magnitudes (axis d): the function values (and the reference) scaled by a power of two, 2^-60 .. 2^30
     return dict(d=d, objs=objs, fss=fss, ref=rng.random() < 0.25, steps=steps, fscale=rng.choice([0] * 6 + [-60, -20, 10, 30]),
-                sibling=rng.random() < 0.12)
+                sibling=rng.random() < 0.12, siblings=gen_siblings(rng, d, boundary))
+
+
+def gen_siblings(rng, d, boundary):
+    """axis (g): further live objects of the SAME class as the grid under test, with every option combination the class accepts
+    (boundary x modified_basis), another domain with the same mesh width (shifted box), another dimension; they are evaluated at
+    the (mesh width, level) values of the object under test BEFORE it works.  Part of the case, so a violating case replays."""
+    if rng.random() >= 0.35:
+        return []
+    out = []
+    for _ in range(rng.choice([1, 1, 2])):
+        opt = rng.choice([(False, True), (False, True), (False, False), (True, False)])      # (boundary, modified_basis)
+        out.append(dict(boundary=opt[0], modified_basis=opt[1], shift=rng.choice([0, 0, 1, -3]),
+                        ddelta=rng.choice([0, 0, 0, -1, 1]) if d > 1 else rng.choice([0, 0, 1])))
+    return out
 
 
 def big_cases(rng):
@@ -359,10 +373,31 @@ def impl_run(c):
             sibling = StandardCombi(a, b, operation=Integration(f=make_function(c['fss'], c['objs'][0]['a'], c['objs'][0]['b'], 1.0), grid=gs, dim=c['d']))
         except BaseException:
             sibling = None
+    trap_siblings = []
+    o0 = c['objs'][0]
+    for sp in c.get('siblings', []):
+        try:
+            dd = max(1, c['d'] + sp['ddelta'])
+            sa = [float(o0['a'][q % c['d']]) + sp['shift'] for q in range(dd)]
+            sb = [float(o0['b'][q % c['d']]) + sp['shift'] for q in range(dd)]
+            gs_ = TrapezoidalGrid(a=np.array(sa), b=np.array(sb), boundary=sp['boundary'], modified_basis=sp['modified_basis'])
+            fs_ = make_function([[0, [Fr(1)] * dd, [Fr(1)] * dd]], [Fr(x) for x in sa], [Fr(x) for x in sb], 1.0)
+            trap_siblings.append(StandardCombi(np.array(sa), np.array(sb), operation=Integration(f=fs_, grid=gs_, dim=dd)))
+        except BaseException:
+            pass
     out = []
     last_req = {}
     for k, st in enumerate(c['steps']):
         sc, grid, f, a, b = trip[st['obj']]
+        for ts in trap_siblings:
+            # the sibling works first, at the levels (hence mesh widths) the object under test is about to use
+            try:
+                if st['lmax'] >= st['lmin'] >= 0 and est_points(ts.dim, st['lmin'], st['lmax'], True) <= 6000:
+                    ts.perform_operation(st['lmin'], st['lmax'])
+                else:
+                    ts.perform_operation(1, 2)
+            except BaseException:
+                pass
         if sibling is not None:
             try:
                 sibling.perform_operation(1, 2)
@@ -885,8 +920,12 @@ def run(chk):
                     'bound objects shared between two object triples=%s' % any(x.get('share_ab') for x in full['objs']),
                     'evaluation points given as=%s' % st.get('pts_form', 'tuples'), 'same points object as previous request=%s' % bool(st.get('pts_same')),
                     'observer calls between stop and observations=%d' % r.get('observers', 0),
-                    'probe of a level vector outside the scheme=%s' % bool(r.get('extra')), 'sibling-class object alive=%s' % bool(full.get('sibling'))):
+                    'probe of a level vector outside the scheme=%s' % bool(r.get('extra')), 'sibling-class object alive=%s' % bool(full.get('sibling')),
+                    'same-class siblings with other options alive=%d' % len(full.get('siblings', []))):
             chk.count(key)
+        for sp in full.get('siblings', []):
+            chk.count('sibling options: boundary=%s modified_basis=%s' % (sp['boundary'], sp['modified_basis']))
+            chk.count('sibling domain shift=%s, dimension delta=%s' % (sp['shift'], sp['ddelta']))
         chk.count('returned objects overwritten with a sentinel', r.get('overwritten', 0))
         if r.get('mutated'):
             pending.append(('oracle:arguments', 'argument-mutated', dict(sig_of(full, k), what=r['mutated'][0].split(' of ')[0]), hist,
@@ -1033,7 +1072,10 @@ LESSON_AXES = {
     '(f) options that change between calls': 'covered: every step of a history draws its own (lmin, lmax), points, point container, tensor-grid request, '
                                              'level type, observers on ONE object; the dimension is fixed by the object (len(a))',
     '(g) shared state across instances': 'covered: two object triples (other boundary flag / other box / shared bound objects) and an object of the '
-                                         'sibling class SimpsonGrid(1D: subclass of TrapezoidalGrid1D) alive and working in the same process; every '
+                                         'sibling class SimpsonGrid(1D: subclass of TrapezoidalGrid1D) alive and working in the same process; further '
+                                         'live TrapezoidalGrid objects with every option combination (boundary x modified_basis), shifted domain of '
+                                         'the same mesh width, other dimension, evaluated FIRST at the levels of the object under test (part of the '
+                                         'case, so it replays); every '
                                          'violating history (also those of the failing-input search) is re-run alone in a fresh process',
     '(h) sizes beyond internal thresholds': 'covered: 1D grids with 2049 / 4097 / 8193 points, 2D 33x65, 1031 and 205 evaluation points, tensor requests '
                                             'up to 1296 points',
